@@ -144,6 +144,8 @@ func c01Post(w *sworld, want [2]sent, label string) {
 		}
 	}
 	vfAssert(hCountKeys(w.m) == live, label+"-no-stray-key")
+	vfAssert(w.m.db.Len() == int64(live), label+"-key-counter-consistent")
+	vfAssert(len(w.m.db.Keys()) == live, label+"-keys-listing-consistent")
 	vfAssert(vfLocksHeld() == 0, label+"-no-lock-left")
 }
 
@@ -691,9 +693,10 @@ func VF_C01_rename() {
 }
 
 func VF_C01_keys() {
+	vfOpt("hashuf", 1)
 	w := c01Pre(vBytes, 2)
 	var pat []byte
-	switch vfChoice("pat", 5) {
+	switch vfChoice("pat", 8) {
 	case 0:
 		pat = bs("*")
 	case 1:
@@ -707,6 +710,12 @@ func VF_C01_keys() {
 		for _, c := range pat {
 			vfAssume(c != '*' && c != '?' && c != '[' && c != '\\')
 		}
+	case 5:
+		pat = bs("\\Kk") // an escaped byte matches itself
+	case 6:
+		pat = bs("k\\K")
+	case 7:
+		pat = bs("Kk\\") // trailing backslash: a broken pattern matches nothing
 	}
 	got := hExec(w.m, bs("KEYS"), pat)
 	vfAssert(got.k == rArr, "keys-reply-kind")
@@ -749,9 +758,46 @@ func c01Glob(p, s string) bool {
 	case '[':
 		// only "[Kk]" occurs
 		return len(s) > 0 && (s[0] == 'K' || s[0] == 'k') && c01Glob(p[4:], s[1:])
+	case '\\':
+		if len(p) < 2 {
+			return false
+		}
+		return len(s) > 0 && s[0] == p[1] && c01Glob(p[2:], s[1:])
 	}
 	return len(s) > 0 && s[0] == p[0] && c01Glob(p[1:], s[1:])
 }
 
 // C17 (second obligation): KEYS returns exactly the live keys the documented grammar accepts.
 func VF_C17_keys() { VF_C01_keys() }
+
+// KEYS over a keyspace populated through the write commands themselves (SET / SETNX / RPUSH / DEL):
+// the listing must contain exactly the live keys.
+func VF_C17_keys_after_writes() {
+	m := hNewDb(2)
+	names := []string{"ka", "kb", "kc"}
+	live := map[string]bool{}
+	for i := 0; i < 3; i++ {
+		k := names[vfChoice("key"+string(rune('0'+i)), 3)]
+		switch vfChoice("op"+string(rune('0'+i)), 4) {
+		case 0:
+			hExec(m, bs("set"), bs(k), bs("v"))
+			live[k] = true
+		case 1:
+			hExec(m, bs("setnx"), bs(k), bs("v"))
+			live[k] = true
+		case 2:
+			if _, isList := func() (any, bool) { v, ok := hGet(m, k); _, l := v.(*List); return v, ok && l }(); isList || !live[k] {
+				hExec(m, bs("rpush"), bs(k), bs("e"))
+				live[k] = true
+			}
+		case 3:
+			hExec(m, bs("del"), bs(k))
+			delete(live, k)
+		}
+	}
+	got := hExec(m, bs("keys"), bs("k*"))
+	vfAssert(got.k == rArr && len(got.a) == len(live), "keys-after-writes-count")
+	for _, e := range got.a {
+		vfAssert(live[string(e.b)], "keys-after-writes-only-live-keys")
+	}
+}
